@@ -1,5 +1,5 @@
 # C04 — a key is used only for callers entitled to it
-import ipaddress, json
+import ipaddress, json, os, collections
 
 FP = ["internal/authmodel:", "internal/realip:", "config:Config.GetKey", "config:ClientConfig.Match", "server:Server.serve", "server:Server.Handler"]
 CERT_FP = {"leaf1": 101, "leaf2": 102, "leafA": 103, "leafAnoeku": 104, "leafAexp": 105, "leafB": 106}
@@ -88,14 +88,257 @@ def oracle(cs, rq):
         return ("status", {500})
     return ("touch", tok)
 
+
+# ---------------------------------------------------------------------------------------------------------------------
+# request sequences on one long-lived server (c04seq)
+EKU_CLIENT, EKU_ANY = 2, 0
+
+def seq_verifies(certs, roots, chain, now_ms):
+    """RFC 5280 path validation restricted to what the harness varies, written from the specification: validity period at
+    the time of the request, extended key usage (absent = unrestricted, any = every purpose) on every certificate of the
+    path, signature path to a trust anchor through CA certificates presented by the peer."""
+    if not chain or not roots:
+        return False
+    def time_ok(c):
+        return c["nb_ms"] <= now_ms <= c["na_ms"]
+    def eku_ok(c):
+        return (not c["eku"]) or EKU_ANY in c["eku"] or EKU_CLIENT in c["eku"]
+    leaf = certs[chain[0]]
+    inter = [certs[n] for n in chain[1:]]
+    if not (time_ok(leaf) and eku_ok(leaf)):
+        return False
+    if leaf["name"] in roots:
+        return True
+    def path(c, depth):
+        if c["signer"] in roots and c["signer"] != c["name"]:
+            return True
+        if depth == 0:
+            return False
+        return any(i["name"] == c["signer"] and i["name"] != c["name"] and i["ca"] and time_ok(i) and eku_ok(i) and path(i, depth - 1) for i in inter)
+    return path(leaf, len(inter))
+
+def seq_recognisers(certs, cs, chain, now_ms):
+    """the client entries that recognise the presented chain, by the property text: keyed by the certificate's public key,
+    or the chain verifies now against the entry's CA pool"""
+    out = []
+    if not chain:
+        return out
+    leaf = certs[chain[0]]
+    for cl in cs["clients"] or []:
+        mk = cl["mapkey"]
+        if mk[:3] in ("fp:", "FP:") and mk[3:] == leaf["key"]:
+            out.append(cl)
+        elif seq_verifies(certs, cl["ca"] or [], chain, now_ms):
+            out.append(cl)
+    return out
+
+def seq_expect(cs, rq, roles):
+    """expected observable for a caller with these roles (property text; same decision order as the single-request oracle)"""
+    roles = set(roles or [])
+    keys = {k["name"]: k for k in cs["keys"]}
+    def resolve(n):
+        k = keys.get(n)
+        if k is None:
+            return None
+        if k["alias"]:
+            k = keys.get(k["alias"])
+        return k
+    def could_sign(n):
+        k = resolve(n)
+        return k is not None and k["token"] != "" and bool(roles & set(k["roles"] or []))
+    if rq["ep"] == "home":
+        return ("status", 200)
+    if rq["ep"] == "list":
+        return ("list", sorted(n for n, k in keys.items() if not k["hide"] and could_sign(n) and not resolve(n)["hide"]))
+    if rq["ep"] == "sign" and rq["key"] == "":
+        return ("status", 400)
+    if not could_sign(rq["key"]):
+        return ("status", 403)
+    tok = resolve(rq["key"])["token"]
+    if tok not in cs["tokens"]:
+        return ("status", 500)
+    return ("touch", tok)
+
+def seq_got(rq, o):
+    touched = o["touched"] or []
+    if touched:
+        return ("touch", touched[0].split(":")[0]) if len(touched) == 1 else ("touch-many", touched)
+    if rq["ep"] == "list" and o["status"] == 200:
+        return ("list", sorted(o["listing"] or []))
+    return ("status", o["status"])
+
+def seq_effective(rq):
+    """which presented chain counts: behind the trusted proxy the header, otherwise the TLS chain (the chain under test
+    is always the one that counts; the decoy must be ignored)"""
+    return rq["chain"] or []
+
+def seq_replay_obj(certs, cs, upto):
+    used = set()
+    reqs = cs["reqs"][:upto + 1]
+    for r in reqs:
+        used.update(r["chain"] or [])
+        used.update(r.get("decoy") or [])
+    for cl in cs["clients"] or []:
+        used.update(cl["ca"] or [])
+        if cl["mapkey"][:3] in ("fp:", "FP:"):
+            used.update(n for n, c in certs.items() if c["key"] == cl["mapkey"][3:])
+    more = True
+    while more:   # signers, so that the descriptions stay self-contained
+        more = False
+        for n in list(used):
+            if certs[n]["signer"] not in used:
+                used.add(certs[n]["signer"]); more = True
+    return {"certs": [certs[n] for n in sorted(used)], "seqs": [dict(cs, reqs=reqs)],
+            "how": "bin/check C04 --replay <this file> re-runs the sequence on the current tree (drv-c04 c04seq replay); the certificates are valid for about an hour after they were minted"}
+
+def seq_judge(ctx, certs, seqs, counters):
+    """model-free oracles on every request of every sequence: (1) property text, (2) equality with a fresh server"""
+    reported = set()
+    for cs in seqs:
+        for i, rq in enumerate(cs["reqs"]):
+            counters["seq_requests"] += 1
+            chain = seq_effective(rq)
+            recs = seq_recognisers(certs, cs, chain, rq["now_ms"])
+            got = seq_got(rq, rq["got"])
+            fresh = seq_got(rq, rq["fresh"])
+            if recs:
+                exps = [seq_expect(cs, rq, cl["roles"]) for cl in recs]
+                counters["seq_recognised"] += 1
+            else:
+                exps = [("status", 401)]
+            earlier_ok = any(seq_recognisers(certs, cs, seq_effective(p), p["now_ms"]) for p in cs["reqs"][:i])
+            if not recs and earlier_ok:
+                counters["seq_unrecognised_after_recognised"] += 1
+            samekey_before = [p for p in cs["reqs"][:i] if seq_effective(p) and chain and certs[seq_effective(p)[0]]["key"] == certs[chain[0]]["key"]
+                              and seq_effective(p)[0] != chain[0]]
+            if samekey_before:
+                counters["seq_same_key_other_certificate_before"] += 1
+            auth = rq["got"]["auth"]
+            auth_ok_expected = bool(recs)
+            bad = None
+            if got not in exps:
+                if not recs:
+                    what = "served" if got[0] in ("touch", "list", "touch-many") or got == ("status", 200) else "answered %s" % (got,)
+                    kind = "unrecognised-certificate-" + ("served" if what == "served" else "not-401")
+                    if what == "served" and earlier_ok:
+                        kind += "-after-recognised-request"
+                else:
+                    kind = "token-touched-unentitled" if got[0].startswith("touch") else ("listing" if rq["ep"] == "list" else "refusal")
+                bad = ("C04:spec:history:" + kind, True,
+                       "request %d of a sequence on one server (%s): %s %s with chain %s via %s: expected %s by the property text, observed %s%s" %
+                       (i + 1, cs["cfg"], rq["ep"], rq["key"], chain, rq["via"], exps if len(exps) > 1 else exps[0], got,
+                        "; a fresh server answers %s" % (fresh,) if fresh != got else ""))
+            elif auth["ok"] != auth_ok_expected or (auth["ok"] and not any(sorted(auth["roles"] or []) == sorted(cl["roles"] or []) for cl in recs)):
+                bad = ("C04:spec:history:authenticator-identity", True,
+                       "request %d of a sequence (%s): chain %s via %s: the long-lived authenticator reports %s, the entries recognising the certificate are %s" %
+                       (i + 1, cs["cfg"], chain, rq["via"], {k: auth[k] for k in ("ok", "name", "roles")}, [(cl["mapkey"], cl["roles"]) for cl in recs]))
+            elif rq["got"] != rq["fresh"]:
+                g2, f2 = dict(rq["got"]), dict(rq["fresh"])
+                bad = ("C04:history-dependence", False,
+                       "request %d of a sequence (%s): %s %s with chain %s: the long-lived server answers %s / identity %s, a fresh server %s / %s (both acceptable by the property text, but the outcome depends on earlier requests)" %
+                       (i + 1, cs["cfg"], rq["ep"], rq["key"], chain, got, g2["auth"], fresh, f2["auth"]))
+            if bad:
+                counters["seq_spec_mismatches" if bad[1] else "seq_history_dependent"] += 1
+                if bad[0] not in reported and len(reported) < 4:
+                    reported.add(bad[0])
+                    ctx.violation(bad[0], bad[2], seq_replay_obj(certs, cs, i), bad[1])
+
+def seq_model_vals(certs, seqs):
+    """history inputs of C04.Run.run_history"""
+    cert_id = {n: 100 + i for i, n in enumerate(sorted(certs))}
+    key_id, subj_id = {}, {}
+    for n in sorted(certs):
+        key_id.setdefault(certs[n]["key"], 1000 + len(key_id))
+        subj_id.setdefault(certs[n]["subject"], 2000 + len(subj_id))
+    def xcert(n):
+        c = certs[n]
+        return [cert_id[n], key_id[c["key"]], subj_id[c["subject"]], cert_id[c["signer"]], c["nb_ms"], c["na_ms"], list(c["eku"] or []), bool(c["ca"])]
+    vals, metas = [], []
+    for cs in seqs:
+        nm = Names()
+        kvals = [[nm.id(k["name"]), nm.id(k["token"]), nm.id(k["alias"]), [ROLE[r] for r in (k["roles"] or [])], k["hide"]] for k in cs["keys"]]
+        cvals = []
+        for j, cl in enumerate(cs["clients"] or []):
+            mk = cl["mapkey"]
+            mkid = key_id[mk[3:]] if mk[:3] in ("fp:", "FP:") else 5000 + j
+            cvals.append([mkid, [cert_id[x] for x in (cl["ca"] or [])], [ROLE[r] for r in (cl["roles"] or [])], nm.id(cl["nick"])])
+        tvals = [nm.id(t) for t in cs["tokens"]]
+        rvals = []
+        for rq in cs["reqs"]:
+            if rq["via"] == "tls":
+                peer, trusted, hops, tls, hdr = "203.0.113.9", False, [], rq["chain"], []
+            elif rq["via"] == "hdr":
+                peer, trusted, hops, tls, hdr = "10.0.0.1", True, [[nm.id("198.51.100.7"), False]], rq.get("decoy") or [], rq["chain"]
+            else:
+                peer, trusted, hops, tls, hdr = "203.0.113.9", False, [[nm.id("198.51.100.7"), False]], rq["chain"], rq.get("decoy") or []
+            rvals.append([EPS[rq["ep"]], nm.id(rq["key"]), True, True, True, True, nm.id(peer), trusted, hops, rq["now_ms"],
+                          [xcert(n) for n in (tls or [])], [xcert(n) for n in (hdr or [])]])
+        vals.append([1, kvals, cvals, tvals, rvals])
+        metas.append((cs, nm))
+    return vals, metas
+
+def seq_compare_model(ctx, certs, seqs, counters):
+    vals, metas = seq_model_vals(certs, seqs)
+    res = ctx.run_model(vals)
+    shown = 0
+    for (cs, nm), outs in zip(metas, res):
+        rev = {v: k for k, v in nm.ids.items()}
+        for i, (rq, m) in enumerate(zip(cs["reqs"], outs)):
+            kind, a, b, listing, ip, proxied, aok, aroles, anick, adn = m
+            if kind == 0:
+                mo = ("status", a)
+            elif kind == 1:
+                mo = ("touch", rev.get(a, "?"))
+            else:
+                mo = ("list", sorted(rev.get(x, "?") for x in listing))
+            got = seq_got(rq, rq["got"])
+            auth = rq["got"]["auth"]
+            mroles = sorted(k for k, v in ROLE.items() if v in aroles)
+            why = None
+            if mo != got:
+                why = "model %s vs implementation %s" % (mo, got)
+            elif bool(aok) != bool(auth["ok"]):
+                why = "model authenticated=%s vs implementation %s" % (bool(aok), auth)
+            elif aok and (mroles != sorted(auth["roles"] or []) or bool(adn) != bool(auth["subject"])):
+                why = "model identity roles %s dn=%s vs implementation %s" % (mroles, bool(adn), auth)
+            elif aok and rev.get(anick, "") != "" and rev.get(anick) != auth["name"]:
+                why = "model nickname %s vs implementation %s" % (rev.get(anick), auth["name"])
+            elif aok and rev.get(anick, "") == "" and rq["chain"] and auth["name"] != certs[rq["chain"][0]]["fp"][:12]:
+                why = "model derives the name from the fingerprint, implementation reports %s" % auth["name"]
+            if why:
+                counters["seq_model_mismatches"] += 1
+                shown += 1
+                if shown <= 2 and not any(v[2] for v in ctx.violations):
+                    ctx.violation("C04:correspondence:history", "request %d of a sequence (%s, %s %s chain %s via %s): %s" % (i + 1, cs["cfg"], rq["ep"], rq["key"], rq["chain"], rq["via"], why),
+                                  dict(seq_replay_obj(certs, cs, i), broken="correspondence C04.Run.run_history"), False)
+
 def run(ctx, replay=None):
     st = ctx.prepare(["C04_gen"], ["C04"], "C04.Run")
     if not st["harness_ok"]:
         return ctx.finish("proof", ctx.proof_coverage([], FP), [])
+    seq_certs, seqs = {}, []
+    def read_seq(out):
+        for l in out.splitlines():
+            if not l.strip():
+                continue
+            o = json.loads(l)
+            if "certs" in o:
+                seq_certs.update({c["name"]: c for c in o["certs"]})
+            else:
+                seqs.append(o)
     if replay:
         rp = json.load(open(replay))
         cases, ipcases = rp.get("cases", []), rp.get("ipcases", [])
+        if rp.get("seqs"):   # sequences are re-executed on the current tree with the recorded certificates
+            rc, out, err = ctx.drv(["c04seq", "replay", os.path.abspath(replay)], timeout=300)
+            if rc != 0:
+                ctx.violation("C04:driver-crash", "sequence replay failed: " + err[-600:], {"stderr": err[-3000:]}, False)
+            read_seq(out)
     else:
+        rc, out, err = ctx.drv(["c04seq"], timeout=600)
+        if rc != 0:
+            ctx.violation("C04:driver-crash", "sequence driver failed: " + err[-600:], {"stderr": err[-3000:]}, False)
+        read_seq(out)
         rc, out, err = ctx.drv(["c04"], timeout=600)
         if rc != 0:
             ctx.violation("C04:driver-crash", "driver failed: " + err[-600:], {"stderr": err[-3000:]}, False)
@@ -146,6 +389,17 @@ def run(ctx, replay=None):
         if (ic["addr"], ic["cert_src"]) != (exp_addr, exp_src):
             n_spec += 1
             ctx.violation("C04:spec:proxy-headers", "recorded address/cert source %s/%s, expected %s/%s" % (ic["addr"], ic["cert_src"], exp_addr, exp_src), {"ipcases": [ic]})
+    counters = collections.Counter()
+    seq_judge(ctx, seq_certs, seqs, counters)
+    if st["model_ok"] and seqs:
+        seq_compare_model(ctx, seq_certs, seqs, counters)
+    n_eval += counters["seq_requests"]
+    n_spec += counters["seq_spec_mismatches"]
+    n_corr += counters["seq_model_mismatches"]
+    for cs in seqs:
+        for i, rq in enumerate(cs["reqs"]):
+            if rq["got"]["status"] != 401:
+                distinct.add(json.dumps([cs["cfg"], [c["roles"] for c in cs["clients"] or []], [(p["ep"], p["key"], p["chain"], p["via"]) for p in cs["reqs"][:i + 1]]]))
     if st["model_ok"] and vals:
         res = ctx.run_model(vals)
         for (cs, rq, nm, got), m in zip(meta, res):
@@ -168,16 +422,19 @@ def run(ctx, replay=None):
                     ctx.violation("C04:correspondence-keyname", "model passes key %s to the token, implementation %s" % (rev.get(b), rq["touched"]),
                                   {"cases": [dict(cs, reqs=[rq])], "broken": "correspondence C04.Run"}, False)
     ctx.proof_verdict()
-    cov = ctx.proof_coverage(["srcgen: GetKey conditions, serveSign denial condition and call order, serveListKeys/serveGetKey conditions",
-                              "harness cmd/drv c04/c04ip: real server.Handler() (realip, logging, recovery, auth middleware, views) with recording fake tokens, real X.509 material minted per run; realip.Middleware/PeerCertificates in isolation",
-                              "x509 chain verification is an oracle in the model (which CA verifies which leaf); OPA policy mode is not exercised by this check; TLS handshake not run"], FP)
+    cov = ctx.proof_coverage(["srcgen: GetKey conditions, serveSign denial condition and call order, serveListKeys/serveGetKey conditions; Authenticate (certificate-required / try-CA conditions, first lookup key, leaf index, action table of the client loop, reads and writes of authenticator state with their key class), fingerprint() (digested field, hash, encoding), ClientConfig.Match (skip condition, leaf / intermediates split, VerifyOptions fields, result mapping), Handler() route table and middleware order, authmodel.Middleware call order; inventory of package variables, struct fields and non-local writes of internal/authmodel, internal/realip, server, config, internal/httperror (must equal the reviewed lists of C04/History.v)",
+                              "harness cmd/drv c04/c04ip/c04seq: real server.Handler() (realip, logging, recovery, auth middleware, views) with recording fake tokens, real X.509 material minted per run; realip.Middleware/PeerCertificates in isolation; request sequences on one long-lived Handler() and a mirrored long-lived authmodel.Authenticator, every request repeated on a brand-new server",
+                              "x509 path validation (crypto/x509 Verify) is modelled by the specification function verify_spec (validity period, EKU on every certificate of the path, signature path through presented CA certificates; trust anchors assumed within validity) and compared with the real verifier on every sequence request; with several entries recognising one certificate Go's map iteration order decides, the harness avoids such configurations and the theorems speak about SOME recognising entry; OPA policy mode is not exercised by this check; TLS handshake not run"], FP)
     dist = {}
     for cs in cases:
         for rq in cs["reqs"]:
             k = "%s/status=%s" % (rq["ep"], rq["status"])
             dist[k] = dist.get(k, 0) + 1
     cov.update({"evaluations": n_eval, "distinct_nontrivial": len(distinct),
-                "rule": "configurations: 11 key shapes (plain, hidden, token-less, unserved token, alias ok/dangling/chain/to-hidden/to-token-less/with-own-token) with random role sets x 3 clients (2 by fingerprint, 1 by CA) ; requests: 17 identity scenarios (trusted/untrusted/unix peers, TLS chain kinds, X-Forwarded-For / Ssl-Client-Cert) x (12 names x {sign, key-info} + list + home + malformed parameters); distinct = requests not ending in 401",
+                "rule": "single requests: configurations: 11 key shapes (plain, hidden, token-less, unserved token, alias ok/dangling/chain/to-hidden/to-token-less/with-own-token) with random role sets x 3 clients (2 by fingerprint, 1 by CA) ; requests: 17 identity scenarios (trusted/untrusted/unix peers, TLS chain kinds, X-Forwarded-For / Ssl-Client-Cert) x (12 names x {sign, key-info} + list + home + malformed parameters); distinct = requests not ending in 401",
                 "samples": [{"ep": r["ep"], "key": r["key"], "tls": r["tls"], "hdr": r["hdr"], "peer": r["peer"], "status": r["status"], "touched": r["touched"]} for r in (cases[0]["reqs"][:3] if cases else [])],
-                "status_distribution": dist, "spec_mismatches": n_spec, "model_mismatches": n_corr, "realip_cases": len(ipcases)})
+                "status_distribution": dist, "spec_mismatches": n_spec, "model_mismatches": n_corr, "realip_cases": len(ipcases),
+                "sequences": {"count": len(seqs), "certificates": len(seq_certs), "configurations": sorted(set(cs["cfg"] for cs in seqs)),
+                              "rule": "7 client configurations (CA only, CA + fingerprint clients, two CAs, fingerprint only, entry that is both fingerprint and CA, CA pool of two, none) x ordered pairs of 28 presented chains (same public key under CA-issued / self-signed / expired / not-yet-valid / foreign-CA / same-name-CA / wrong-EKU / any-EKU / no-EKU / other-CA certificates, through valid, serverAuth-only and expired intermediates, same subject with another key, issued by a non-CA, fingerprint keys under other certificates, the CA certificate itself, no certificate) as c1 c2 c2 c1 on one server, plus random histories of 8-16 requests mixing TLS and trusted-proxy-header delivery, plus one history whose certificates cross NotAfter / NotBefore while the server lives; every response compared with the property text and with a brand-new server",
+                              "counters": dict(counters)}})
     return ctx.finish("proof", cov, ["x509 verification oracle", "policy (OPA) mode covered by model only"])
